@@ -829,22 +829,37 @@ Proof.
     + tauto.
 Qed.
 
-Lemma marshal_roundtrip_bitmap s q : BInv s -> b_query (b_unmarshal (b_marshal s)) q = b_query s q.
+Lemma unmarshal_marshal_bitmap s : fam_ok (b_g s) ->
+  b_unmarshal (b_marshal s) =
+  {| b_g := b_g s; b_bm := b_bm s; b_alloc := b_alloc s; b_rev := rebuild_rev (b_alloc s);
+     b_count := Z.of_N (asize (b_alloc s)); b_hint := 0 |}.
 Proof.
-  intros Hinv. destruct q as [h|a pl|a pl|]; unfold b_query, bout; cbn [Bitmap.step].
-  - change (b_alloc (b_unmarshal (b_marshal s))) with (b_alloc s).
-    destruct (aget h (b_alloc s)); reflexivity.
-  - change (index_of (b_unmarshal (b_marshal s)) a pl) with (index_of s a pl).
+  intros Hf. unfold b_unmarshal, b_marshal, b_isv6. cbn [jb_base jb_ppl jb_pl jb_v6 jb_bitmap jb_alloc].
+  f_equal. unfold fam_ok in Hf. destruct (b_g s) as [bits base ppl pl]. cbn [g_bits g_base g_ppl g_pl] in *.
+  destruct Hf as [Hb | Hb]; subst bits; reflexivity.
+Qed.
+
+Lemma marshal_roundtrip_bitmap s q : fam_ok (b_g s) -> BInv s -> b_query (b_unmarshal (b_marshal s)) q = b_query s q.
+Proof.
+  intros Hf Hinv. rewrite (unmarshal_marshal_bitmap s Hf).
+  set (s' := {| b_g := b_g s; b_bm := b_bm s; b_alloc := b_alloc s; b_rev := rebuild_rev (b_alloc s);
+                b_count := Z.of_N (asize (b_alloc s)); b_hint := 0 |}).
+  destruct q as [h|a pl|a pl| | | | ]; unfold b_query.
+  - reflexivity.
+  - unfold bout. cbn [Bitmap.step]. change (index_of s' a pl) with (index_of s a pl).
     destruct (index_of s a pl) as [i|]; [|reflexivity].
-    change (b_rev (b_unmarshal (b_marshal s))) with (rebuild_rev (b_alloc s)).
+    change (b_rev s') with (rebuild_rev (b_alloc s)).
     replace (aget i (rebuild_rev (b_alloc s))) with (aget i (b_rev s)); [destruct (aget i (b_rev s)); reflexivity|].
     apply option_ext. intros h. rewrite rebuild_rev_spec.
     + symmetry. apply (bi_bij s Hinv).
     + apply (bi_wfa s Hinv).
     + intros h1 h2 j H1 H2. eapply binv_alloc_inj; eassumption.
   - reflexivity.
-  - cbn [fst snd]. unfold count64. change (b_count (b_unmarshal (b_marshal s))) with (Z.of_N (asize (b_alloc s))).
+  - unfold bout. cbn [Bitmap.step fst snd]. unfold count64. change (b_count s') with (Z.of_N (asize (b_alloc s))).
     rewrite (bi_cnt s Hinv). reflexivity.
+  - reflexivity.
+  - reflexivity.
+  - reflexivity.
 Qed.
 
 (* epoch: the restored allocator differs from the original in the allocation hint only *)
@@ -1038,4 +1053,52 @@ Proof.
   pose proof (m_run_inv ops) as [Hip _ _]. generalize dependent (m_run ops). intros m Hip.
   unfold m_roundtrip, srec_rt. rewrite map_id. destruct q; cbn [m_query ms_recs ms_byip ms_totals]; try reflexivity.
   rewrite rebuild_find, Hip. reflexivity.
+Qed.
+
+(* ================================================================================ *)
+(* Store keys <-> subscriber ids                                                      *)
+
+Lemma skipn_app_exact {A} (p l : list A) : skipn (length p) (p ++ l) = l.
+Proof. induction p as [|x p IH]; [reflexivity|exact IH]. Qed.
+
+(* every id, whatever bytes it contains, is recovered from its key *)
+Lemma id_of_key_of_id pool id : id_of_key pool (key_of_id pool id) = Some id.
+Proof.
+  unfold id_of_key, key_of_id, key_prefix.
+  replace (alloc_lit ++ pool ++ [47] ++ id) with ((alloc_lit ++ pool ++ [47]) ++ id)
+    by (rewrite <- !app_assoc; reflexivity).
+  destruct (Nat.ltb_spec (length ((alloc_lit ++ pool ++ [47]) ++ id)) (length (alloc_lit ++ pool ++ [47]))) as [H|H].
+  - rewrite app_length in H. lia.
+  - rewrite skipn_app_exact. reflexivity.
+Qed.
+
+Lemma key_of_id_inj pool id1 id2 : key_of_id pool id1 = key_of_id pool id2 -> id1 = id2.
+Proof.
+  intros H. pose proof (id_of_key_of_id pool id1) as H1. rewrite H, id_of_key_of_id in H1. congruence.
+Qed.
+
+Lemma holder_of_key_of_id w id : holder_of_key w (key_of_id (w_pool w) id) = intern (w_names w) id.
+Proof. unfold holder_of_key. rewrite id_of_key_of_id. reflexivity. Qed.
+
+(* a remote delete / put delivered under the key of subscriber [id] acts on exactly that subscriber *)
+Lemma wire_remote_del w s id h : intern (w_names w) id = Some h ->
+  wnext w s (WRemoteDel (key_of_id (w_pool w) id)) = dnext s (DRemoteDel h).
+Proof. intros H. unfold wnext, wstep, wtrans. rewrite holder_of_key_of_id, H. reflexivity. Qed.
+
+Lemma wire_remote_put w s id h a pl ep : intern (w_names w) id = Some h ->
+  wnext w s (WRemotePut (key_of_id (w_pool w) id) id a pl ep) = dnext s (DRemotePut h a pl ep).
+Proof. intros H. unfold wnext, wstep, wtrans. rewrite holder_of_key_of_id, H, N.eqb_refl. reflexivity. Qed.
+
+Lemma wire_remote_del_applies w s id h : intern (w_names w) id = Some h ->
+  d_lookup (wnext w s (WRemoteDel (key_of_id (w_pool w) id))) h = None.
+Proof. intros H. rewrite (wire_remote_del w s id h H). apply remote_del_applies. Qed.
+
+(* ... and on no other subscriber of the table (distinct ids have distinct holders) *)
+Lemma wire_remote_del_others w s id h h' : intern (w_names w) id = Some h -> h' <> h -> d_lease s = false ->
+  d_lookup (wnext w s (WRemoteDel (key_of_id (w_pool w) id))) h' = d_lookup s h'.
+Proof.
+  intros H Hne Hl. rewrite (wire_remote_del w s id h H). unfold dnext, dstep. cbn [fst].
+  unfold handle_remote, d_lookup, d_lease, set_store, set_bm in *. cbn [d_cfg d_bm d_store]. rewrite Hl.
+  cbn [d_cfg d_bm]. rewrite Hl. rewrite release_alloc_aget. destruct (N.eqb_spec h h'); [congruence|].
+  unfold unit_of. rewrite bnext_geo. reflexivity.
 Qed.
